@@ -322,7 +322,14 @@ class State:
         if isinstance(t, TMap):
             return self.alloc(self.fresh_mapobj(t.k, t.v, prefix))
         if isinstance(t, TDict):
-            return self.alloc(DictObj({k: self.fresh(ft, "%s[%s]" % (prefix, k)) for k, ft in t.fields.items()}))
+            from .builtins import Maybe
+            items = {}
+            for k, ft in t.fields.items():
+                if isinstance(ft, TMaybe):
+                    items[k] = Maybe(z3.Bool(run.fresh_name("%s.has[%s]" % (prefix, k))), self.fresh(ft.t, "%s[%s]" % (prefix, k)))
+                else:
+                    items[k] = self.fresh(ft, "%s[%s]" % (prefix, k))
+            return self.alloc(DictObj(items))
         if isinstance(t, TObj):
             return self.alloc(Obj(t.cls, {k: self.fresh(ft, "%s.%s" % (prefix, k)) for k, ft in t.fields.items()}))
         if isinstance(t, TOpt):
@@ -387,6 +394,8 @@ class State:
             o.has, o.val = f.has, f.val
         elif isinstance(o, DictObj):
             for k, v in list(o.items.items()):
+                if not isinstance(v, V):
+                    continue
                 if not isinstance(v, VRef) or deep:
                     o.items[k] = self.havoc_value(v, "%s[%s]" % (prefix, k)) if not isinstance(v, VNone) else v
         elif isinstance(o, Obj):
